@@ -162,7 +162,10 @@ def perform(vec, fresh=False):
     k = vec["k"]
     pre = conv_state(vec["pre"], k)
     z = vec["z"]
-    build(pre)
+    try:
+        build(pre)
+    except Exception as e:  # noqa: an observation, not a harness failure
+        return {"build_failed": True, "built": "raised %s: %s" % (type(e).__name__, str(e)[:200]), "pre": pre}
     n = L(z["n"])
     leaf = None
     if fresh:
